@@ -18,7 +18,7 @@ fn splitmix(s: &mut u64) -> u64 {
 }
 
 macro_rules! narrow_impl {
-    ($m:ident, $S:ident, $tag:expr, $tiny_pow:expr, $small_angles:expr, $pow_range:expr, $len_scales:expr) => {
+    ($m:ident, $S:ident, $tag:expr, $tiny_pow:expr, $small_angles:expr, $pow_range:expr, $len_scales:expr, $extreme_scales:expr) => {
         pub mod $m {
             use super::*;
             type S = $S;
@@ -135,8 +135,26 @@ macro_rules! narrow_impl {
                     tw.rec(it == iv && (b.determinant() == 0.0) == it.is_none(),
                         || format!("Matrix4<{}> m = {:?}: inverse_transform() = {:?} but invert() = {:?}", $tag, b, it, iv));
                 }
+                // a 2x2 matrix whose determinant is subnormal (non-zero) while its inverse is perfectly representable
+                let ts = Tally::new(name("c02.inverse_subnormal_determinant"));
+                for e in [2, 4, 8] {   // (exponents for which the determinant and both products are exactly representable subnormals)
+                    let sc = S::MIN_POSITIVE.sqrt() * (2.0 as S).powi(-e);
+                    for base in [[1.0 as S, 2.0, 3.0, 4.0], [2.0, -1.0, 0.5, 4.0], [1.0, 0.0, 0.0, 1.0], [0.0, 2.0, -2.0, 0.0]] {
+                        let m = Matrix2::new(base[0] * sc, base[1] * sc, base[2] * sc, base[3] * sc);
+                        let ok = match m.invert() {
+                            Some(nv) => {
+                                let p = m * nv;
+                                let tol = 64.0 * EPS;
+                                (p.x.x - 1.0).abs() <= tol && (p.y.y - 1.0).abs() <= tol && p.x.y.abs() <= tol && p.y.x.abs() <= tol
+                            }
+                            None => m.determinant() == 0.0,
+                        };
+                        ts.rec(ok, || format!("Matrix2<{}> m = {:?} (determinant {:e}): invert() = {:?}", $tag, m, m.determinant(), m.invert()));
+                    }
+                }
                 t.print();
                 tw.print();
+                ts.print();
             }
 
             // ---------------------------------------------------------------- C04
@@ -392,6 +410,20 @@ macro_rules! narrow_impl {
                     }
                 }
                 t.print();
+                // centroid of long lists (any length, in particular around and beyond powers of two): the sum divided by the count
+                let tc = Tally::new(name("c12.centroid_long_lists"));
+                for &n in [2usize, 3, 15, 16, 17, 255, 256, 257, 300, 511, 513, 768, 1000, 1025].iter() {
+                    let pts3: Vec<Point3<S>> = (0..n).map(|i| Point3::new(i as S, -2.0 * (i as S), 3.0)).collect();
+                    let pts2: Vec<Point2<S>> = (0..n).map(|i| Point2::new(if i + 1 == n { 257.0 } else { 0.0 }, i as S)).collect();
+                    let pts1: Vec<Point1<S>> = (0..n).map(|i| Point1::new(i as S)).collect();
+                    let (c3, c2, c1) = (Point3::centroid(&pts3), Point2::centroid(&pts2), Point1::centroid(&pts1));
+                    let half = (n as S - 1.0) / 2.0;
+                    let tol = 8.0 * EPS * (n as S);
+                    let ok = (c3.x - half).abs() <= tol && (c3.y + 2.0 * half).abs() <= 2.0 * tol && (c3.z - 3.0).abs() <= tol
+                        && (c2.x - 257.0 / (n as S)).abs() <= tol && (c2.y - half).abs() <= tol && (c1.x - half).abs() <= tol;
+                    tc.rec(ok, || format!("centroid of {} points <{}>: Point3 {:?} (want ({:e}, {:e}, 3)), Point2 {:?} (want ({:e}, {:e})), Point1 {:?}", n, $tag, c3, half, -2.0 * half, c2, 257.0 / (n as S), half, c1));
+                }
+                tc.print();
             }
 
             // ---------------------------------------------------------------- C13
@@ -552,6 +584,22 @@ macro_rules! narrow_impl {
                         && (a2.magnitude2() == 0.0 || b2.magnitude2() == 0.0
                             || (a2.magnitude() * b2.magnitude() * g2.cos() - a2.dot(b2)).abs() <= 64.0 * EPS * a2.magnitude() * b2.magnitude());
                     t.rec(ok4, || format!("Vector4/Vector2<{}> (from u = {:?}, v = {:?}): angle4 = {:e}, angle2 = {:e}", $tag, a4, b4, g4, g2));
+                    // very long / very short arguments whose squared lengths are still representable (Vector1, Vector4, Quaternion:
+                    // the default `angle` divides by the product of the two lengths)
+                    if i < 64 {
+                        for &kx in $extreme_scales.iter() {
+                            let (p4, q4) = (Vector4::new(u0.x, u0.y, u0.z, 0.5) * kx, Vector4::new(v0.x, v0.y, v0.z, -0.25) * kx);
+                            let gx = p4.angle(q4).0;
+                            let (pq, qq) = (Quaternion::new(p4.w, p4.x, p4.y, p4.z), Quaternion::new(q4.w, q4.x, q4.y, q4.z));
+                            let gq = pq.angle(qq).0;
+                            let unit = (p4 / p4.magnitude()).dot(q4 / q4.magnitude());
+                            let g1 = Vector1::new(u0.x * kx).angle(Vector1::new(-v0.y.abs().max(0.1) * kx)).0;
+                            let want1 = if u0.x > 0.0 { 3.1415927 } else { 0.0 };
+                            t.rec((gx.cos() - unit).abs() <= 64.0 * EPS && (gq - gx).abs() <= 64.0 * EPS && (g1 - want1).abs() <= 1.0e-6,
+                                || format!("Vector4/Quaternion/Vector1<{}> at scale {:e}: u = {:?}, v = {:?}: angle = {:e} (cos {:e}), cosine of the directions = {:e}; quaternion angle {:e}; Vector1 angle {:e} (want {:e})",
+                                    $tag, kx, p4, q4, gx, gx.cos(), unit, gq, g1, want1));
+                        }
+                    }
                 }
                 t.print();
             }
@@ -609,8 +657,8 @@ macro_rules! narrow_impl {
     };
 }
 
-narrow_impl!(f64n, f64, "f64", 60, [5.0e-8, 1.0e-7, 3.0e-7, 1.0e-6, 1.0e-5, 1.0e-4], 1000, [1.0, 1.0e-5, 1.0e-3, 1.0e3, 1.0e-9, 1.0e6, 3.0e-7, 0.25]);
-narrow_impl!(f32n, f32, "f32", 27, [3.0e-4, 5.0e-4, 1.0e-3, 2.0e-3, 5.0e-3, 1.0e-2], 120, [1.0, 1.0e-2, 1.0e-3, 1.0e2, 3.0e-4, 1.0e3, 0.03, 0.25]);
+narrow_impl!(f64n, f64, "f64", 60, [5.0e-8, 1.0e-7, 3.0e-7, 1.0e-6, 1.0e-5, 1.0e-4], 1000, [1.0, 1.0e-5, 1.0e-3, 1.0e3, 1.0e-9, 1.0e6, 3.0e-7, 0.25], [1.0e80 as f64, 1.0e-90, 1.0e100, 1.0e-120]);
+narrow_impl!(f32n, f32, "f32", 27, [3.0e-4, 5.0e-4, 1.0e-3, 2.0e-3, 5.0e-3, 1.0e-2], 120, [1.0, 1.0e-2, 1.0e-3, 1.0e2, 3.0e-4, 1.0e3, 0.03, 0.25], [1.0e10 as f32, 1.0e-12, 1.0e14, 1.0e-15]);
 
 pub fn run(which: &str, n: u64, seed: u64) {
     match which {
